@@ -290,6 +290,58 @@ func c02Gen(g *Gen) {
 		}
 	}
 
+	// ---- family G: the real fluentdforward connection against a fake Fluentd ----
+	for n := 1; n <= g.Pick(3, 5); n++ {
+		for idx := 0; idx < n; idx++ {
+			for _, o := range []int{cAckID, cAckEmpty, cAckErr, cAckBlock, cAckUnknown, cAckGarbled, cAckDup, cAckGarbage, cAckNoField} {
+				for _, stop := range []int{-1, 2 + idx, 4 + 2*idx, 3*n + 4} {
+					ack := c02Fill(idx+1, 0)
+					ack[idx] = o
+					add(4, "G:fluentd:onefault", &c02Scn{N: n, Cap: 2, Flavor: 2, Ack: ack, Stop: stop, StopRev: (stop + idx) & 1, StopGap: idx % 3})
+				}
+			}
+		}
+	}
+	for i := 0; i < g.Pick(60, 1500); i++ {
+		r := g.R
+		n := r.Range(1, 10)
+		s := &c02Scn{N: n, Cap: r.PickInt([]int{1, 2, 10}), Flavor: 2, Stop: -1, StopRev: r.Intn(2), StopGap: r.Intn(3)}
+		idMode := r.Chance(3, 4)
+		for j := 0; j < 3*n; j++ {
+			a := 0
+			if !idMode {
+				a = r.PickInt([]int{cAckEmpty, cAckEmpty, cAckNoField})
+			}
+			if r.Chance(1, 5) {
+				if idMode {
+					a = r.PickInt([]int{cAckErr, cAckBlock, cAckUnknown, cAckGarbled, cAckDup, cAckGarbage})
+				} else {
+					a = r.PickInt([]int{cAckErr, cAckBlock, cAckGarbage})
+				}
+			}
+			s.Ack = append(s.Ack, a)
+			s.Conn = append(s.Conn, r.PickInt([]int{0, 0, 0, 0, 0, cConnErr, cConnBlockOK}))
+		}
+		if r.Chance(1, 3) {
+			s.Stop = r.Range(0, 6*n+8)
+		}
+		if r.Chance(1, 4) {
+			s.MaxAge = r.Range(2, 10)
+		}
+		at := 0
+		for j := 0; j < n; j++ {
+			at += r.Range(0, 4)
+			s.Push = append(s.Push, at)
+		}
+		add(4, "G:fluentd:random", s)
+	}
+	// a server that stops reading: the write of a large chunk blocks until its deadline
+	for _, at := range []int{1, 2} {
+		send := c02Fill(at+1, 0)
+		send[at] = cSendBlock
+		add(4, "G:fluentd:stalled-server", &c02Scn{N: at + 2, Cap: 2, Flavor: 2, Big: 4 * 1024, Send: send, Stop: -1})
+	}
+
 	// ---- family E: outside the connection contract: an ack read that ignores Close and its deadline ----
 	for n := 1; n <= g.Pick(2, 4); n++ {
 		ack := c02Fill(n, 0)
@@ -312,7 +364,7 @@ func c02Gen(g *Gen) {
 				}
 			}
 			// the stop request comes after three more pings
-			add(2, fmt.Sprintf("F:liveness:age=%d", age), &c02Scn{N: n + 1, Cap: 2, MaxAge: age, Ack: ack,
+			add(2, fmt.Sprintf("F:liveness:age=%d", age), &c02Scn{N: n + 1, Cap: 2, MaxAge: age, Ack: ack, Limit: 3000,
 				Push: append(push, -(n - first + 3)), Stop: 1 << 20})
 		}
 	}
